@@ -16,7 +16,9 @@ from .. import core
 
 PROPERTY = "C20"
 TOKENS = ["&", "<", ">", '"', "'", "a", ";", "#", " ", "é", "&amp;", "&lt;", "&#38;", "&quot;",
-          "]]>", "x26"]
+          "]]>", "x26",
+          # the edges of the XML 1.0 character ranges: #x20-#xD7FF, #xE000-#xFFFD, #x10000-#x10FFFF
+          "\ud7ff", "\ue000", "\ufffd", "\U00010000", "\U0001F58A", "\U0010FFFF", "\x7f"]
 ENTITY = re.compile(r"&(?!(amp|lt|gt|quot|apos);)")
 HMS = re.compile(r"^(\d+):(\d\d):(\d\d) \(Hours, minutes, seconds\)$")
 MS = re.compile(r"^(\d+):(\d\d) \(Minutes, seconds\)$")
